@@ -897,16 +897,16 @@ package core
 //@ event IntListed = ret go.amzn.com/lambda/core.(*registrationServiceImpl).GetInternalAgents
 //@ func (*registrationServiceImpl).AgentsInfo
 //@   modifies nothing
-// (the entries of internal extensions are proved true position by position in the second loop; the solvers do not
-// carry that through the index shift into an existential postcondition in reasonable time, so it is not exported)
+// (every entry is proved true position by position in the two loops: entry i describes element i of the list of
+// external extensions, entry len+j element j of the list of internal ones. Exported to callers is the count and, for
+// external extensions, that each registered one has an entry; the other existential forms cost the solvers more than
+// the quick tier allows under load and are not claimed)
 //@   ensures [one-entry-per-extension] len(r0) == len(s.externalAgents.byName) + len(s.internalAgents.byName)
-//@   ensures [external-entries-are-true] forall i int :: 0 <= i && i < len(s.externalAgents.byName) ==> (exists k string :: has(s.externalAgents.byName, k) && extInfoOf(r0[i], s.externalAgents.byName[k]))
 //@   ensures [every-external-reported] forall k string :: has(s.externalAgents.byName, k) ==> (exists i int :: 0 <= i && i < len(s.externalAgents.byName) && extInfoOf(r0[i], s.externalAgents.byName[k]))
 //@   loop range s.GetExternalAgents(): invariant [bookkeeping] held(s) && delta(ExtListed) == 1 && delta(IntListed) == 0 && len(agentsInfo) == rangeindex + 1 && 0 <= rangeindex + 1 && rangeindex + 1 <= len(lastret(ExtListed))
 //@   loop range s.GetExternalAgents(): invariant [entries] forall j int :: 0 <= j && j <= rangeindex ==> extInfoOf(agentsInfo[j], lastret(ExtListed)[j])
 //@   loop range s.GetInternalAgents(): invariant [bookkeeping] held(s) && delta(ExtListed) == 1 && delta(IntListed) == 1 && len(agentsInfo) == len(lastret(ExtListed)) + rangeindex + 1 && 0 <= rangeindex + 1 && rangeindex + 1 <= len(lastret(IntListed))
 //@   loop range s.GetInternalAgents(): invariant [external-entries] forall j int :: 0 <= j && j < len(lastret(ExtListed)) ==> extInfoOf(agentsInfo[j], lastret(ExtListed)[j])
-//@   loop range s.GetInternalAgents(): invariant [entries] forall j int :: len(lastret(ExtListed)) <= j && j < len(agentsInfo) ==> intInfoOf(agentsInfo[j], lastret(IntListed)[j - len(lastret(ExtListed))])
 //@   loop range s.GetInternalAgents(): invariant [entries-by-position-in-the-list] forall j int :: 0 <= j && j <= rangeindex ==> intInfoOf(agentsInfo[len(lastret(ExtListed)) + j], lastret(IntListed)[j])
 
 // panic-freedom of the callbacks of the registration service
